@@ -32,14 +32,19 @@ func VerifNextDSTSpringForward() {
 }
 
 // A fixed-offset zone whose offset is not a whole number of hours (Asia/Kolkata, UTC+5:30), start instants from 00:00
-// to 03:45 local time, and Lord Howe Island's half-hour DST change (2012-04-01 02:00 LHDT -> 01:30 LHST: half an hour is
-// repeated).
+// to 03:45 local time, and Lord Howe Island's half-hour DST changes (2012-04-01 02:00 LHDT -> 01:30 LHST: half an hour is
+// repeated; 2012-10-07 02:00 LHST -> 02:30 LHDT: half an hour is missing).
 //
 //verif:harness prop=C04 name=next_half_hour_zones unwind=400 solver=z3-new
 func VerifNextHalfHourZones() {
-	if zzverif.Bool("lord_howe") {
+	switch zzverif.Choose("zone_and_date", 3) {
+	case 1:
 		// 2012-03-31 13:00 UTC = 2012-04-01 00:00 LHDT (UTC+11); the transition is at 15:00 UTC
 		vNextAroundTransition("Australia/Lord_Howe", time.Date(2012, 3, 31, 13, 0, 30, 0, time.UTC), "next_half_hour_zones_done")
+		return
+	case 2:
+		// 2012-10-06 13:30 UTC = 2012-10-07 00:00 LHST (UTC+10:30); 02:00 LHST -> 02:30 LHDT at 15:30 UTC
+		vNextAroundTransition("Australia/Lord_Howe", time.Date(2012, 10, 6, 13, 30, 30, 0, time.UTC), "next_half_hour_zones_done")
 		return
 	}
 	// 2012-05-31 18:30 UTC = 2012-06-01 00:00 IST
@@ -83,4 +88,55 @@ func vNextAroundTransition(zoneName string, base time.Time, cover string) {
 		zzverif.Assert(!matches(u), "no_earlier_matching_instant")
 	}
 	zzverif.Cover(cover)
+}
+
+// A transition AT MIDNIGHT (America/Sao_Paulo, 2018-11-04: 00:00 -03 -> 01:00 -02, the hour 00:00-01:00 does not
+// exist that day; and 2019-02-17: 00:00 -02 -> 23:00 -03 of the day before, the hour 23:00-24:00 of 02-16 happens
+// twice) with the DAY fields in play: start instants every hour from 21:30 two and a half hours before the transition
+// to 04:30 after it; day-of-month an arbitrary non-empty subset of the three days around it, hour an arbitrary
+// non-empty subset of {0, 1, 22, 23} or unrestricted, minute and second 0. The result is strictly after the start,
+// matches on the zone's wall clock, and no whole hour in between matches.
+//
+//verif:harness prop=C04 name=next_dst_at_midnight unwind=400 solver=z3-new
+func VerifNextDSTAtMidnight() {
+	zone := zzverif.RealZone("America/Sao_Paulo")
+	var base time.Time
+	var d0 uint
+	if zzverif.Bool("autumn") {
+		base = time.Date(2019, 2, 16, 23, 30, 30, 0, time.UTC) // 21:30:30 -02 on 02-16; transition at 02:00 UTC on 02-17
+		d0 = 16
+	} else {
+		base = time.Date(2018, 11, 4, 0, 30, 30, 0, time.UTC) // 21:30:30 -03 on 11-03; transition at 03:00 UTC
+		d0 = 3
+	}
+	start := base.Add(time.Duration(zzverif.Choose("hours_after_base", 8)) * time.Hour).In(zone)
+	days := zzverif.Uint64("day_set")
+	zzverif.Assume(days != 0)
+	zzverif.Assume(days&^(uint64(7)<<d0) == 0)
+	hours := uint64(1)<<24 - 1
+	if zzverif.Bool("hours_restricted") {
+		hours = zzverif.Uint64("hour_set")
+		zzverif.Assume(hours != 0)
+		zzverif.Assume(hours&^(uint64(1)<<0|1<<1|1<<22|1<<23) == 0)
+	}
+	all := func(lo, hi uint) uint64 { return getBits(lo, hi, 1) | starBit }
+	s := &SpecSchedule{Second: 1, Minute: 1, Hour: hours, Dom: days, Month: all(1, 12), Dow: all(0, 6), Location: zone}
+	got := s.Next(start)
+	matches := func(u time.Time) bool {
+		return u.Minute() == 0 && days&(uint64(1)<<uint(u.Day())) != 0 && hours&(uint64(1)<<uint(u.Hour())) != 0
+	}
+	// the three days come round again next month at the latest: there is a result
+	zzverif.Assert(!got.IsZero(), "next_exists")
+	zzverif.Assert(got.After(start), "next_is_strictly_after_start")
+	zzverif.Assert(got.Second() == 0 && got.Nanosecond() == 0, "next_is_a_whole_minute")
+	zzverif.Assert(matches(got), "next_matches_the_fields_on_the_zone_wall_clock")
+	u := start.Truncate(time.Hour)
+	for i := 0; i < 80; i++ {
+		u = u.Add(time.Hour)
+		if !u.Before(got) {
+			break
+		}
+		zzverif.Assert(!matches(u), "no_earlier_matching_instant")
+	}
+	zzverif.Cover("next_dst_at_midnight_done")
 }
